@@ -90,3 +90,20 @@ package controllers
 //@   pure
 //@   ensures result == (typeis(oldObject, "*corev1.Pod") && typeis(newObject, "*corev1.Pod") && asPod(oldObject).Status.Phase != asPod(newObject).Status.Phase && (asPod(newObject).Status.Phase == "Failed" || asPod(newObject).Status.Phase == "Succeeded"))
 //@ end
+
+// ---- C11: Reconcile protocol ------------------------------------------------------------------
+//@ define asNode(o ref) *v1.Node = unbox(o, "*v1.Node")
+//@ define asV1Pod(o ref) *v1.Pod = unbox(o, "*v1.Pod")
+// Client.Get (ASSUMED): on success the fetched object is decoded into obj; outcome nondeterministic.
+//@ func sigs.k8s.io/controller-runtime/pkg/client.Client.Get
+//@   props C11
+//@   requires obj != nil
+//@   modifies fields(asBR(obj)), fields(asV1Pod(obj)), fields(asNode(obj))
+//@ end
+
+//@ func (*BindRequestReconciler).Reconcile
+//@   props C11
+//@   requires r != nil && r.Client != nil && r.binder != nil
+//@   modifies *
+//@   ensures [never-bound-twice] binding.bindAttempts() <= old(binding.bindAttempts()) + 1
+//@ end
